@@ -5,6 +5,7 @@ from hypothesis import strategies as st
 from vf import gens
 from vf.runner import hyp_run, run_cases, guard, fail, exc_failure
 
+THOROUGH_SCALE = 4      # multiplies every generated-case budget of the thorough tier
 RULE = ("columnfiles: 1-12 titles mixing names from the FORMATS table (FLOATS/INTS/LONGFLOATS/EXPONENTIALS) and "
         "unknown names, 1-8 rows, finite values incl. -0.0 with magnitudes 1e-12..1e12 (integers for INTS titles), "
         "header parameters int/float/str; text save->load->save->load and HDF5 write / overwrite (same or different "
